@@ -13,6 +13,11 @@ BOUND_FUNC = "x+1"
 TOL = 1e-9
 
 
+class Ambiguous(Exception):
+    """the phase of a complex parameter of modulus zero is not determined (atan2(0, -0.0) = pi):
+    the behaviour is not followed further (neither a violation nor a machinery failure)"""
+
+
 class Drift(Exception):
     """the real object cannot be put on the model's lattice (machinery, not violation)"""
 
@@ -175,6 +180,10 @@ class Replayer:
         il = self.lattice(snap)
         for n in self.names:
             if il[n] != ml[n]:
+                if n in self.comp_head and n.endswith("i") and il[n] is not None and il[n][0] == "phase":
+                    z = self.comp_head[n]
+                    if abs(snap["vals"][z + "r"]) < 1e-12 and ml[z + "r"] == ("val", 0):
+                        raise Ambiguous("phase of %s at zero modulus" % z)
                 diffs.append("value of %s: impl %s model %s" % (n, il[n], ml[n]))
         if set(snap["free"]) != set(st["free"]) or len(snap["free"]) != len(st["free"]):
             diffs.append("free names: impl %s model %s" % (sorted(snap["free"]), sorted(st["free"])))
@@ -378,7 +387,11 @@ def run_path(rep, path, on_fail, cleanup=True):
         fails = rep.observe(action, args, before, snap, pre)
         for ob, msg in fails:
             on_fail("observer", ob, i, msg)
-        diffs = rep.compare(snap, st)
+        try:
+            diffs = rep.compare(snap, st)
+        except Ambiguous:
+            rep.ambiguous = getattr(rep, "ambiguous", 0) + 1
+            return False
         if diffs:
             on_fail("projection", "Projection", i, "; ".join(diffs[:3]))
             return False
